@@ -5,9 +5,10 @@
 (* random choice of legal frames, under ORDER BY o (peers) and ORDER BY o,id *)
 (* (total order), ascending and descending.                                  *)
 EXTENDS Window, TLC, Json, Randomization
-CONSTANTS MaxRows, NFrames
+CONSTANTS MaxRows, NFrames, NVariants
 VARIABLES tbl
-PV == {Null, I(0), I(1)}
+\* p is also rendered as the pair (a, b) = (p div 2, p mod 2) for PARTITION BY a, b
+PV == {Null, I(0), I(1), I(2)}
 OV == {Null, I(0), I(1), I(2)}
 XV == {Null, I(-1), I(0), I(1), I(2)}
 Init == tbl = <<>>
@@ -16,7 +17,7 @@ Next == /\ Len(tbl) < MaxRows
              tbl' = Append(tbl, [id |-> Len(tbl) + 1, p |-> p, o |-> o, x |-> x])
 Spec == Init /\ [][Next]_tbl
 
-Bounds == {Bnd("UP", 0), Bnd("C", 0), Bnd("UF", 0)} \cup {Bnd("P", n) : n \in 0..2} \cup {Bnd("F", n) : n \in 0..2}
+Bounds == {Bnd("UP", 0), Bnd("C", 0), Bnd("UF", 0)} \cup {Bnd("P", n) : n \in {0, 1, 2, 5}} \cup {Bnd("F", n) : n \in {0, 1, 2, 5}}
 AllFrames == {f \in {Frame(u, s, e) : u \in {"ROWS", "RANGE", "GROUPS"}, s \in Bounds, e \in Bounds} : LegalFrame(f)}
 \* RANGE with offsets needs exactly one ORDER BY key
 FramesFor(total) == IF total THEN {f \in AllFrames : f.units # "RANGE" \/ (f.s.k \in {"UP", "C"} /\ f.e.k \in {"C", "UF"})}
@@ -25,21 +26,24 @@ FramesFor(total) == IF total THEN {f \in AllFrames : f.units # "RANGE" \/ (f.s.k
 \* under ORDER BY o alone the order among peers is open: only frames made of whole peer groups, and only
 \* the functions that do not look at the order inside the frame
 PeerFns(r) == [sum |-> r.sum, count |-> r.count, count_star |-> r.count_star, avg |-> r.avg, min |-> r.min, max |-> r.max]
-Variant(total, desc) ==
-  [total |-> total, desc |-> desc,
-   pos |-> OverTable(tbl, desc, LAMBDA s, i : PosFns(s, i, total)),
-   tot |-> IF total THEN OverTable(tbl, desc, LAMBDA s, i : TotalFns(s, i)) ELSE <<>>,
+Variant(total, desc, nf) ==
+  [total |-> total, desc |-> desc, nf |-> nf,
+   pos |-> OverTable(tbl, desc, nf, LAMBDA s, i : PosFns(s, i, total)),
+   tot |-> IF total THEN OverTable(tbl, desc, nf, LAMBDA s, i : TotalFns(s, i)) ELSE <<>>,
    frames |-> LET fs == SetAsSeq(RandomSubset(NFrames, FramesFor(total))) IN
               [k \in 1..Len(fs) |->
                  [f |-> fs[k],
-                  res |-> OverTable(tbl, desc, LAMBDA s, i :
+                  res |-> OverTable(tbl, desc, nf, LAMBDA s, i :
                              IF total THEN FrameFns(s, i, fs[k], total, desc)
                              ELSE PeerFns(FrameFns(s, i, fs[k], total, desc)))]]]
-Case == [tbl |-> tbl, variants |-> <<Variant(TRUE, FALSE), Variant(FALSE, FALSE), Variant(TRUE, TRUE), Variant(FALSE, TRUE)>>]
+\* a seeded choice of NVariants of the 8 (total order?, descending?, nulls first?) combinations per table
+Combos == {<<t, d, n>> : t \in BOOLEAN, d \in BOOLEAN, n \in BOOLEAN}
+Case == LET cs == SetAsSeq(RandomSubset(NVariants, Combos)) IN
+        [tbl |-> tbl, variants |-> [k \in 1..Len(cs) |-> Variant(cs[k][1], cs[k][2], cs[k][3])]]
 Emit == Len(tbl) >= 1 => PrintT(<<"CASE", ToJson(Case)>>)
 
 \* properties of the reference itself
-FrameSanity == \A pv \in PartVals(tbl) : LET s == Ordered(PartRows(tbl, pv), FALSE) IN \A i \in 1..Len(s) :
+FrameSanity == \A pv \in PartVals(tbl) : LET s == Ordered(PartRows(tbl, pv), FALSE, FALSE) IN \A i \in 1..Len(s) :
    \* the default frame (RANGE UNBOUNDED PRECEDING .. CURRENT ROW) ends at the last peer; ROWS ..CURRENT ROW at i
    /\ Len(FrameOf(s, i, Frame("RANGE", Bnd("UP", 0), Bnd("C", 0)), FALSE, FALSE)) = LastPeer(s, i, FALSE)
    /\ Len(FrameOf(s, i, Frame("ROWS", Bnd("UP", 0), Bnd("C", 0)), TRUE, FALSE)) = i
